@@ -36,6 +36,19 @@ func (r c14Res) canon() string {
 	return vh.Canon(map[string]any{"err": r.Class})
 }
 
+// quick: a cheaper canonical form (one Marshal; map keys sorted by encoding/json) that is only ever
+// compared with the quick form of another implementation result
+func (r c14Res) quick() string {
+	if r.Class == "ok" {
+		b, err := json.Marshal(map[string]any{"ok": r.Out})
+		if err != nil {
+			return "!marshal:" + err.Error()
+		}
+		return string(b)
+	}
+	return `{"err":"` + r.Class + `"}`
+}
+
 type c14Ops[T any] struct {
 	parse  func(raw json.RawMessage) (any, error) // once per chunk
 	mk     func(parsed any) T                     // fresh Go value for every call
@@ -688,6 +701,9 @@ func c14DiffField(a, b string) string {
 	sort.Strings(keys)
 	for _, k := range keys {
 		if vh.Canon(xm[k]) != vh.Canon(ym[k]) {
+			if k == "tcs" && c14TCOrderOnly(xm[k], ym[k]) {
+				return "tcs-order" // the same tool calls, in a different order
+			}
 			return k
 		}
 	}
@@ -720,6 +736,8 @@ func c14Eval(c *c14Case, modelRaw json.RawMessage, graph bool, reps int) ([]c14F
 	if err != nil {
 		return nil, all, err
 	}
+	allCanon := all.canon() // computed once (long messages: canonicalisation dominates the cost)
+	allQuick := all.quick()
 	panicSig := func(r c14Res) string {
 		shape := "other"
 		switch {
@@ -751,8 +769,9 @@ func c14Eval(c *c14Case, modelRaw json.RawMessage, graph bool, reps int) ([]c14F
 		if err != nil {
 			return nil, all, err
 		}
-		if again.canon() != all.canon() {
-			sig := fmt.Sprintf("C14:nondeterministic:%s:%s", c.Kind, c14DiffField(all.canon(), again.canon()))
+		if again.quick() != allQuick {
+			againCanon := again.canon()
+			sig := fmt.Sprintf("C14:nondeterministic:%s:%s", c.Kind, c14DiffField(allCanon, againCanon))
 			if (again.Class == "panic" || all.Class == "panic") && f.nilVal {
 				sig = panicSig(all) // panic or error depending on map order: same defect
 			}
@@ -763,8 +782,8 @@ func c14Eval(c *c14Case, modelRaw json.RawMessage, graph bool, reps int) ([]c14F
 	// model vs implementation
 	if modelRaw != nil {
 		model := vh.Canon(json.RawMessage(modelRaw))
-		if model != all.canon() && all.Class != "panic" && all.Class != "hang" {
-			field := c14DiffField(model, all.canon())
+		if model != allCanon && all.Class != "panic" && all.Class != "hang" {
+			field := c14DiffField(model, allCanon)
 			sig := typedTag(fmt.Sprintf("C14:result-mismatch:%s:%s", c.Kind, field))
 			if field == "class" {
 				var mm map[string]any
@@ -785,8 +804,9 @@ func c14Eval(c *c14Case, modelRaw json.RawMessage, graph bool, reps int) ([]c14F
 			out = append(out, c14Finding{Sig: sig, What: fmt.Sprintf("implementation and model disagree on %s (%s)", field, via), Model: json.RawMessage(modelRaw), Impl: all})
 		}
 	}
-	// re-chunking law, directly on the implementation, every two-way split
-	for k := 1; k < len(c.Chunks); k++ {
+	// re-chunking law, directly on the implementation, every two-way split (long sequences: both
+	// ends and an evenly spaced selection of split points)
+	for _, k := range c14SplitPoints(len(c.Chunks)) {
 		sp, err := run.split(c.Chunks, k)
 		if err != nil {
 			return nil, all, err
@@ -800,9 +820,10 @@ func c14Eval(c *c14Case, modelRaw json.RawMessage, graph bool, reps int) ([]c14F
 		if all.Class == "panic" || all.Class == "hang" {
 			continue // already reported
 		}
-		same := sp.canon() == all.canon() || (sp.Class != "ok" && all.Class != "ok")
+		same := sp.quick() == allQuick || (sp.Class != "ok" && all.Class != "ok")
 		if !same {
-			field := c14DiffField(all.canon(), sp.canon())
+			spCanon := sp.canon()
+			field := c14DiffField(allCanon, spCanon)
 			out = append(out, c14Finding{Sig: typedTag(fmt.Sprintf("C14:rechunk:%s:%s", c.Kind, field)),
 				What:  fmt.Sprintf("concat(concat(chunks[:%d]) :: chunks[%d:]) differs from concat(chunks) on %s (%s)", k, k, field, via),
 				Model: map[string]any{"all": all}, Impl: map[string]any{"split": k, "result": sp}})
@@ -821,8 +842,8 @@ func c14Eval(c *c14Case, modelRaw json.RawMessage, graph bool, reps int) ([]c14F
 			switch {
 			case sp.Class == "panic" || sp.Class == "hang":
 				out = append(out, c14Finding{Sig: panicSig(sp), What: fmt.Sprintf("with the nested map %s delivered in two chunks the concatenation %ss (%s): %s", where, sp.Class, via, sp.Info), Impl: sp})
-			case !(sp.canon() == all.canon() || (sp.Class != "ok" && all.Class != "ok")):
-				field := c14DiffField(all.canon(), sp.canon())
+			case !(sp.canon() == allCanon || (sp.Class != "ok" && all.Class != "ok")):
+				field := c14DiffField(allCanon, sp.canon())
 				out = append(out, c14Finding{Sig: typedTag(fmt.Sprintf("C14:split-nested-map:%s:%s", c.Kind, field)),
 					What:  fmt.Sprintf("delivering the nested map %s in two consecutive chunks (first entry / the rest) changes the result on %s (%s)", where, field, via),
 					Model: map[string]any{"one-chunk": all}, Impl: map[string]any{"split-case": c2, "result": sp}})
@@ -897,6 +918,14 @@ func c14Candidates(c *c14Case) []*c14Case {
 	clone := func() *c14Case {
 		n := &c14Case{Kind: c.Kind, Et: c.Et, Chunks: append([]json.RawMessage{}, c.Chunks...)}
 		return n
+	}
+	// long sequences: whole blocks of chunks first (halves, quarters, …)
+	for size := len(c.Chunks) / 2; size >= 2; size /= 2 {
+		for i := 0; i+size <= len(c.Chunks); i += size {
+			n := clone()
+			n.Chunks = append(n.Chunks[:i:i], n.Chunks[i+size:]...)
+			out = append(out, n)
+		}
 	}
 	for i := range c.Chunks {
 		n := clone()
@@ -1005,9 +1034,13 @@ func c14AskModel(ctx *vh.Ctx, c *c14Case) (json.RawMessage, error) {
 
 func c14Shrink(ctx *vh.Ctx, c *c14Case, sig string, graph bool) *c14Case {
 	cur := c
-	for round := 0; round < 200; round++ {
+	stop := time.Now().Add(5 * time.Second) // long sequences: shrinking is best effort
+	for round := 0; round < 200 && time.Now().Before(stop); round++ {
 		progressed := false
 		for _, cand := range c14Candidates(cur) {
+			if !time.Now().Before(stop) {
+				break
+			}
 			raw, err := c14AskModel(ctx, cand)
 			if err != nil {
 				continue
@@ -1070,7 +1103,16 @@ func c14Account(ctx *vh.Ctx, c *c14Case, all c14Res, graph bool) {
 	if graph {
 		ctx.Res.Dist("via=graph")
 	}
-	ctx.Res.Dist(fmt.Sprintf("chunks=%d", len(c.Chunks)))
+	switch n := len(c.Chunks); {
+	case n <= 6:
+		ctx.Res.Dist(fmt.Sprintf("chunks=%d", n))
+	case n <= 16:
+		ctx.Res.Dist("chunks=7-16")
+	case n <= 48:
+		ctx.Res.Dist("chunks=17-48")
+	default:
+		ctx.Res.Dist("chunks=49+")
+	}
 	ctx.Res.Dist("class=" + all.Class)
 	ctx.Res.Dist(fmt.Sprintf("extra-depth=%d", f.depth))
 	if f.nilVal {
@@ -1116,13 +1158,39 @@ func c14Account(ctx *vh.Ctx, c *c14Case, all c14Res, graph bool) {
 	default:
 		ctx.Res.Dist("toolcalls=4+")
 	}
+	if merged, nilIdx := c14MergedCalls(c); merged > 0 {
+		b := "1-4"
+		switch {
+		case merged > 48:
+			b = "49+"
+		case merged > 12:
+			b = "13-48"
+		case merged > 8:
+			b = "9-12"
+		case merged > 4:
+			b = "5-8"
+		}
+		ctx.Res.Dist("merged-toolcalls=" + b)
+		if merged > 12 {
+			switch {
+			case nilIdx == merged:
+				ctx.Res.Dist("merged-toolcalls>12:all-without-index")
+			case nilIdx >= 2:
+				ctx.Res.Dist("merged-toolcalls>12:2+-without-index-and-indexed")
+			case nilIdx == 1:
+				ctx.Res.Dist("merged-toolcalls>12:1-without-index")
+			default:
+				ctx.Res.Dist("merged-toolcalls>12:all-indexed")
+			}
+		}
+	}
 	nontrivial := len(c.Chunks) >= 2 && (c.Kind == "strs" || c.Kind == "anys" || f.extras || f.indexed)
 	ctx.Res.Count(c.Kind+"/"+c14Hash(c), nontrivial)
 	ctx.Res.Sample(c)
 }
 
 func runC14(ctx *vh.Ctx) error {
-	ctx.Res.Rule = "random chunk sequences (0-6 chunks) of *schema.Message (ConcatMessages and the compose stream→value conversion), map[string]any, typed maps (map[string]string/int/float64/bool/S/*S/[]string/map[string]string/map[string]int/map[string]S/map[string]any/map[string]map[string]string), string, any, []*Message; every field independently absent/zero/set, tool-call fragments with repeated/missing/nil/negative indexes and conflicting id/type/name, nested extras with nil values, type clashes and typed maps (nil, empty, the same key in 1, 2, 3+ chunks) under keys of map[string]any chunks and of Message.Extra; non-trivial = at least 2 chunks and (string or any chunks, or a non-empty extra/map, or an indexed tool call); distinct by hash of the whole case"
+	ctx.Res.Rule = "random chunk sequences (0-6 chunks) of *schema.Message (ConcatMessages and the compose stream→value conversion), map[string]any, typed maps (map[string]string/int/float64/bool/S/*S/[]string/map[string]string/map[string]int/map[string]S/map[string]any/map[string]map[string]string), string, any, []*Message; every field independently absent/zero/set, tool-call fragments with repeated/missing/nil/negative indexes and conflicting id/type/name, nested extras with nil values, type clashes and typed maps (nil, empty, the same key in 1, 2, 3+ chunks) under keys of map[string]any chunks and of Message.Extra; family heavy: long message streams (up to ~300 chunks) whose concatenation holds 2-130 tool calls, share of complete calls without an Index none / 2-3 / half / nearly all / all, contiguous or sparse indexes opened ascending / descending / neighbours swapped / shuffled, 1-4 interleaved fragments per indexed call, 1-24 calls per chunk; non-trivial = at least 2 chunks and (string or any chunks, or a non-empty extra/map, or an indexed tool call); distinct by hash of the whole case"
 	if ctx.Replay != nil {
 		var c c14Case
 		if err := json.Unmarshal(ctx.Replay, &c); err != nil {
@@ -1149,10 +1217,10 @@ func runC14(ctx *vh.Ctx) error {
 		return nil
 	}
 	plan := []struct {
-		kind     string
+		kind     string // generator: a kind of the case language, or "heavy" (kinds msgs / cmsgs)
 		quick, t int
 		share    float64 // cumulative share of the time budget after which the kind stops
-	}{{"msgs", 8000, 150000, 0.40}, {"cmsgs", 2000, 40000, 0.52}, {"maps", 6000, 120000, 0.84}, {"strs", 400, 4000, 0.86}, {"anys", 600, 8000, 0.89}, {"marr", 800, 15000, 1.0}}
+	}{{"msgs", 8000, 150000, 0.36}, {"cmsgs", 2000, 40000, 0.46}, {"heavy", 1200, 24000, 0.62}, {"maps", 6000, 120000, 0.86}, {"strs", 400, 4000, 0.88}, {"anys", 600, 8000, 0.91}, {"marr", 800, 15000, 1.0}}
 	const batch = 250
 	for _, p := range plan {
 		n := ctx.N(p.quick, p.t)
@@ -1161,7 +1229,21 @@ func runC14(ctx *vh.Ctx) error {
 			cases := make([]*c14Case, 0, batch)
 			asks := make([]any, 0, batch)
 			for i := 0; i < batch && done+i < n; i++ {
-				c := c14GenCase(ctx.Rng, p.kind)
+				var c *c14Case
+				if p.kind == "heavy" {
+					kind := "msgs"
+					if ctx.Rng.Chance(30) {
+						kind = "cmsgs"
+					}
+					var info c14HeavyInfo
+					c, info = c14GenHeavy(ctx.Rng, kind)
+					ctx.Res.Dist("heavy:opening=" + info.opening)
+					if info.conflict {
+						ctx.Res.Dist("heavy:conflicting-fragment")
+					}
+				} else {
+					c = c14GenCase(ctx.Rng, p.kind)
+				}
 				cases = append(cases, c)
 				asks = append(asks, c)
 			}
@@ -1184,7 +1266,7 @@ func runC14(ctx *vh.Ctx) error {
 					c14Report(ctx, c, fs, false)
 				}
 				// the same conversion through the public API (stream-only node + Invoke)
-				if (p.kind == "cmsgs" || p.kind == "maps" || p.kind == "strs") && i%5 == 0 {
+				if (c.Kind == "cmsgs" || c.Kind == "maps" || c.Kind == "strs") && i%5 == 0 {
 					fs, all, err := c14Eval(c, raw, true, 0)
 					if err != nil {
 						return err
